@@ -79,3 +79,8 @@ claim("C09",
       "Generated coordinate-sorted BAMs (1..3 contigs, 0..5000 reads straddling bin edges and contig ends, soft clips, every filter flag, MAPQ 0..60, optional I/D/N) and BED files (3/4/6/7 columns, abutting, overlapping, nested, zero-width, past-the-end bins, unsorted, > 5000 lines) are run through do_coverage with both algorithms and mapq cut-offs; every row must carry its bin's coordinates and name and depth = aligned bases of counted reads inside the bin / length (log2 or 0/-20); the table for processes in {2,3,16} and chunk sizes {1,2,7,100,5000} must equal the serial one exactly.",
       "Trusted: pysam/htslib as BAM writer and as the engine under bedcov; the read-by-read model; pileup compared on indel-free BAMs only; OS scheduling not controlled.",
       "DESIGN.md 5/C09")
+claim("C03",
+      "property-based testing (Hypothesis): segment tables compared with survivors recomputed by the package's own filters and with aggregates recomputed over the spanned bins",
+      "Generated bin tables (1..6 chromosomes, 1..400 bins, centromere gaps, null-coverage edge/interior bins, zero weights, outliers, ignored names) are segmented with none/haar/hmm/hmm-tumor/hmm-germline under every filter combination and 1..16 processes; per chromosome the segments must be sorted, positive, disjoint, inside the input span, hold every surviving bin exactly once with probes equal to the survivors inside, reach the arm's first/last input bin (none, haar), carry weight/depth/gene aggregated over all spanned input bins and (none, HMM) the weighted mean log2 of their survivors; parallel equals serial.",
+      "Trusted: the package's filter functions for deciding survivors; harness arm finder; cbs/flasso (R) not installed; one open finding (HMM on <= 3 zero-spread bins) excluded by signature.",
+      "DESIGN.md 5/C03")
